@@ -405,7 +405,14 @@ def boundary_scripts(rng):
     P = lambda conn, ttl, pid, http=False: {"op": "prepare", "conn": conn, "ttl": ttl, "pid": pid, "http": http}  # noqa: E731
     A = lambda dt: {"op": "advance", "dt": dt}  # noqa: E731
     L = lambda conn: {"op": "lose", "conn": conn}  # noqa: E731
+    w = twin()
+    on = next(c for c in targets() if c[0] == 2 and w.chars[c].display_name == "On")
+    fixed_write = {
+        "op": "write", "conn": 0, "pid": 7, "http": True, "svcRaise": [], "accRaise": [],
+        "entries": [{"aid": on[0], "iid": on[1], "hasValue": True, "value": True, "r": None, "cb": ["ret", None]}],
+    }
     hs = [
+        [fixed_write],  # the plainest case: a pid that nobody ever prepared (seed-independent witness)
         [W(0, 7)],  # never prepared
         [W(0, 0)],  # pid 0, never prepared
         [P(0, 250, 7), A(250), W(0, 7)],  # exactly at expiry: still live
@@ -852,10 +859,11 @@ def run(ctx: Ctx):
                     break
         for k in (0, len(boundary_scripts(ctx.rng)) + 3, len(scripts) - 1):
             ops, obs = impl_all[k]
+            novals = lambda d: {x: y for x, y in d.items() if x != "vals"}  # noqa: E731
             st.sample({
                 "history": strip(ops),
-                "impl": [canon_obs(op, o) for op, o in zip(ops, obs)][-1],
-                "model": canon_model(ops[-1], model[k]["ops"][-1]) if "ops" in model[k] else model[k],
+                "impl_last_op": novals(canon_obs(ops[-1], obs[-1])),
+                "model_last_op": novals(canon_model(ops[-1], model[k]["ops"][-1])) if "ops" in model[k] else model[k],
             })
 
 
